@@ -57,8 +57,10 @@ class H1Client:
         self.progress: Dict[str, Any] = {}
 
     # -- feeding -------------------------------------------------------------------------
-    def step(self, st: Dict[str, Any]) -> None:
+    def step(self, st: Dict[str, Any]):
         s = st["s"]
+        if self.h2 is not None and s in ("h2",):
+            return self.h2.step(st)
         if s == "send":
             if "upto" in st:
                 upto = min(st["upto"], len(self.stream))
@@ -166,6 +168,9 @@ class H1Client:
                     from .h2client import H2Peer
 
                     self.h2 = H2Peer(self.sess, upgrade_rid=rid)
+                    # after the 101 the client sends its connection preface (RFC 7540 3.2)
+                    self.sess.trace.log("c_frame", kind="preface", stream=0, n=len(self.h2.pending_preface), app="conn")
+                    self.sess.env.feed(self.h2.pending_preface)
                     if rest:
                         self.h2.on_wire(rest)
             elif k == "error":
@@ -187,6 +192,10 @@ class H1Client:
                 self.sess.trace.log("wire", kind="end", app=rid, by="close")
             elif ev["k"] == "truncated":
                 self.sess.trace.log("wire", kind="truncated", app=rid, where=ev["in"])
+
+    def fed(self, index: int, n: int) -> None:
+        if self.h2 is not None:
+            self.h2.fed(index, n)
 
     def ws_client(self):
         if self.ws is None:
